@@ -358,6 +358,9 @@ def promotion_table(repo, run, rule):
             else:
                 want_other = plain(S) and not plain(O)
             got_other = getattr(r.ret, 'name', None) == 'other'
+            if not want_other and r.ret is not me:
+                bad.append((S, O, 'returns %s, expected the node itself' % (getattr(r.ret, 'name', r.ret),)))
+                continue
             if got_other != want_other:
                 bad.append((S, O, 'returns %s, expected %s' % (getattr(r.ret, 'name', r.ret), 'other (the more specific kind)' if want_other else 'self')))
                 continue
